@@ -406,6 +406,48 @@ theorem marker_before_last_occurrence :
     markAtFirst ["S", "TLS:false", "x", "TLS:false"] ["TLS:false"] grpcServerMarker = ["S", grpcServerMarker, "TLS:false"] ∧
     markAtFirst ["S", "TLS:false", "x"] ["x"] grpcServerMarker = markName ["S", "TLS:false", "x"] ["x"] grpcServerMarker := by decide
 
+/-! ### whose certificate (the "matching server" also means: the certificate handed to the client is
+the one the addressed server presents) -/
+
+/-- Whatever server a started batch has — the reference server, with or without the operator's key
+pair; a server under test that takes the credentials it is sent or makes its own — the certificate
+every request of the batch carries is the one the server presents, and there is one exactly when the
+instance uses TLS.  (`silent`, the server that reports nothing under TLS: the batch is not started.) -/
+theorem handed_cert_is_served {α : Type} (k : SrvKind) (opFile : Option α) (runner fresh : α) (i : Inst) (sc : SrvCert α)
+    (h : batchCert k opFile runner fresh i = some sc) :
+    handedCert sc = sc.served ∧ (handedCert sc).isSome = i.tls := by
+  unfold batchCert at h
+  cases k <;> cases ht : i.tls <;> cases opFile <;>
+    simp [serverCert, refServerCert, credsFor, ht] at h <;> subst h <;> simp [handedCert]
+
+/-- … for both sources of the reference server's key pair: with the operator's files the client is
+handed (and the server presents) the operator's certificate, without them the runner's. -/
+theorem reference_cert_source {α : Type} (opFile : Option α) (runner fresh : α) (i : Inst) (ht : i.tls = true) :
+    ∃ sc, batchCert .reference opFile runner fresh i = some sc ∧
+      handedCert sc = some (opFile.getD runner) ∧ sc.served = some (opFile.getD runner) := by
+  cases opFile <;> simp [batchCert, serverCert, refServerCert, credsFor, ht, handedCert]
+
+/-- The same over the plan: every permutation of every batch that is started is handed to the client
+with the certificate its batch's server presents — a certificate exactly when the permutation's own
+instance uses TLS (composition with `batch_matches_instance`). -/
+theorem batch_cert_matches_instance {α : Type} (perms : List Perm) (run skip : Node) (insts : List Inst) (i : Inst) (b : List Perm)
+    (hb : (i, b) ∈ plan perms run skip insts) (k : SrvKind) (opFile : Option α) (runner fresh : α) (sc : SrvCert α)
+    (h : batchCert k opFile runner fresh i = some sc) :
+    ∀ p ∈ b, handedCert sc = sc.served ∧ (handedCert sc).isSome = p.inst.tls := by
+  intro p hp
+  have hi := (batch_matches_instance perms run skip insts i b hb).2 p hp
+  rw [hi]
+  exact handed_cert_is_served k opFile runner fresh i sc h
+
+/-- Witness: the report must come from the listener's key pair.  A reference server that lists its
+listener's choices file-first but its report credentials-first is the same server without the
+operator's files and another one with them: the client is handed the runner's certificate while the
+server presents the operator's. -/
+theorem report_must_follow_listener :
+    refReportCredsFirst true (none : Option String) (some "runner") "fresh" = refServerCert true none (some "runner") "fresh" ∧
+    refServerCert true (some "operator") (some "runner") "fresh" = some "operator" ∧
+    refReportCredsFirst true (some "operator") (some "runner") "fresh" = some "runner" := by decide
+
 /-! Non-vacuity. -/
 private def pa : Perm := ⟨["S", "a"], ⟨1, 1, false, false⟩⟩
 private def pb : Perm := ⟨["S", "b"], ⟨2, 2, false, false⟩⟩
@@ -469,5 +511,18 @@ example : (libA.map (fun e => e.1 ++ e.2)).Nodup ∧ (∀ e ∈ libA, grpcServer
     libA.map (fun e => markName (e.1 ++ e.2) e.2 grpcServerMarker) =
       [["a", "HTTPVersion:1", grpcServerMarker, "a"], ["a", "HTTPVersion:2", grpcServerMarker, "a"],
        ["a", "HTTPVersion:1", grpcServerMarker, "a", "a"], ["a", "HTTPVersion:2", grpcServerMarker, "a", "a"]] := by decide
+
+/-- `handed_cert_is_served` / `reference_cert_source` / `batch_cert_matches_instance`: a TLS instance
+served by the reference server with the operator's key pair and without, by a server that makes its
+own, a plaintext instance, and the batch that is not started -/
+example :
+    batchCert .reference (some "operator") "runner" "fresh" ⟨1, 2, true, true⟩ = some ⟨some "operator", some "operator"⟩ ∧
+    batchCert .reference none "runner" "fresh" ⟨1, 2, true, false⟩ = some ⟨some "runner", some "runner"⟩ ∧
+    batchCert .echo (some "operator") "runner" "fresh" ⟨1, 2, true, false⟩ = some ⟨some "runner", some "runner"⟩ ∧
+    batchCert .own (some "operator") "runner" "fresh" ⟨1, 2, true, false⟩ = some ⟨some "fresh", some "fresh"⟩ ∧
+    batchCert .reference (some "operator") "runner" "fresh" ⟨1, 2, false, false⟩ = some ⟨none, none⟩ ∧
+    batchCert .silent none "runner" "fresh" ⟨1, 2, true, false⟩ = none := by decide
+private def pt : Perm := ⟨["T", "a"], ⟨1, 2, true, false⟩⟩
+example : (⟨1, 2, true, false⟩, [pt]) ∈ plan [pa, pt] [] [] [⟨1, 1, false, false⟩, ⟨1, 2, true, false⟩] := by decide
 
 end ConfModel.Props.C05
